@@ -40,7 +40,7 @@ def _trrel_uf_inscc(rec, f):
     if not rel.startswith("i") or d.get("extra"):
         return False
     lm = rec.get("specified_least_model", {})
-    closure = lm.get("off") if "off" in lm else lm.get("o000")
+    closure = lm.get("off") if "off" in lm else (lm.get("o000") if "o000" in lm else lm.get("r"))
     if closure is None:
         return False
     cl = {tuple(t) for t in closure}
@@ -56,9 +56,9 @@ def _trrel_uf_inscc(rec, f):
 def _trrel_uf_tern_reflexive(rec, f):
     """F16: ternary trrel_uf read with column 1 and/or 2 bound but not column 0 (the adaptor's reverse maps): the
     reflexive pair (k, x, x) of an element that never occurred in that column position of an inserted tuple is not
-    found. Matches only reflexive missing tuples of the readers i/o 010, 001, 011 of the ternary trrel_uf program."""
+    found. Matches only reflexive missing tuples of the readers i/o 010, 001, 011 of the ternary trrel_uf programs."""
     case = rec.get("case", {})
-    if case.get("prog") != "trrel_uf_tern" or rec.get("kind") != "wrong-result":
+    if not (case.get("prog") == "trrel_uf_tern" or case.get("prog", "").startswith("trrel_uf_only")) or rec.get("kind") != "wrong-result":
         return False
     d = rec.get("detail", {})
     if d.get("rel") not in ("i010", "i001", "i011", "o010", "o001", "o011") or d.get("extra"):
